@@ -24,6 +24,65 @@ def parser_availability(chk, fx, rule):
     chk.floor(rule, "cursor read sites in pdu::reader", n_sites, 60)
 
 
+_SUB = {}
+IMPORTING = False
+
+
+def import_rules(chk, tier, pid, rules, why, floor, only=None):
+    """Make the instances of another property's rules part of this check (rule name `<pid>:<rule>`): used where the other property's
+    clause is a necessary condition of this one (the umbrella properties C01/C02 need every codec clause of C03/C04/C07; the tools need
+    the association clauses). The other module runs once per process; its own imports are switched off while it runs."""
+    global IMPORTING
+    import importlib
+    from . import report
+    if IMPORTING:
+        return 0
+    if pid not in _SUB:
+        IMPORTING = True
+        try:
+            sub = report.Check(pid, tier)
+            importlib.import_module(f"rules.{pid.lower()}").run(sub, tier)
+            _SUB[pid] = sub
+        finally:
+            IMPORTING = False
+    sub = _SUB[pid]
+    n = 0
+    for r in sorted({i["rule"] for i in sub.instances}):
+        if rules is not None and r not in rules:
+            continue
+        name = f"{pid}:{r}"
+        chk.rule(name, f"[{why}] " + sub.rules.get(r, r))
+        for inst in sub.instances:
+            if inst["rule"] != r or inst["fn"] == "<floor>" or (only is not None and not only(inst)):
+                continue
+            n += 1
+            if inst["status"] == "ok":
+                chk.ok(name, inst["fn"], inst["instance"], inst.get("detail"))
+            elif inst["status"] == "violation":
+                chk.bad(name, inst["fn"], inst["instance"], inst.get("expected"), inst.get("found"), loc=inst.get("loc"))
+    chk.expect(n >= floor, f"{pid}:imported", "<floor>", f"instances imported from {pid}", f">= {floor}", n)
+    return n
+
+
+# Clauses of one property that are necessary conditions of another (applied by vcheck after the property's own rules; C01 and C02 list
+# theirs in their modules). (source property, rules, reason, counted instances on the pinned tree, instance filter)
+IMPORTS = {
+    "C09": [("C03", {"vr-header-form", "header-layout", "header-bytes-read"}, "the meta group is written and read with the Explicit VR Little Endian codec", 85,
+             lambda i: "explicit_le" in i["fn"])],
+    "C26": [("C25", {"pdu-tables", "item-framing", "chunk-length"}, "P-DATA PDUs and their PDV items are framed as the reader parses them", 117, None)],
+    "C28": [("C25", {"pdu-tables", "item-framing"}, "the association PDUs the acceptor reads and writes are coded as the peer codes them", 114, None)],
+    "C29": [("C25", {"pdu-tables", "item-framing"}, "both peers code the association PDUs alike", 114, None)],
+    "C30": [("C25", {"pdu-tables"}, "release / abort PDUs are coded as the peer decodes them", 91, None)],
+    "C32": [("C27", {"wire-loop"}, "the SCP receives every PDU whatever the segmentation", 39, None)],
+    "C33": [("C26", {"header-setup", "writer-siblings", "async-state", "writer-max-from-peer"}, "the SCU's data set goes out through the P-DATA writer", 28, None)],
+}
+
+
+def apply_imports(chk, tier, pid):
+    for src, rules, why, counted, only in IMPORTS.get(pid, []):
+        import_rules(chk, tier, src, rules, why, (counted * 9) // 10, only=only)
+
+
 def text_values_as_stored(chk, fx, rule):
     """PrimitiveValue::to_multi_str (the only source of the strings of a JSON `Value` array): a single string is one value -- it is not cut
     at backslashes (ST/LT/UT/UR hold one value and `\\` is ordinary text there); the multi-valued variants yield one string per element"""
